@@ -9,7 +9,7 @@ for d in ${@:-refactors/*}; do
   git -C /repo apply /verif/$d/patch.diff || { echo "$n: patch failed"; continue; }
   suite=$(cd /repo && go build ./... >/dev/null 2>&1 && go test -vet=off -count=1 ./... >/dev/null 2>&1; echo $?)
   alarms=$(printf "%s\n" $PROPS | xargs -P 10 -I{} sh -c 'bin/cdlint -prop {} -repo /repo -evidence "" 2>&1 | grep -q "^VIOLATION" && echo {}' | sort | tr "\n" " ")
-  git -C /repo checkout -- .
+  git -C /repo checkout -- . && git -C /repo clean -fdq
   st=SILENT; [ -n "$alarms" ] && st=ALARM
   echo "$n suite_exit=$suite $st [$alarms]"
 done
